@@ -346,6 +346,202 @@ def rule_panic_ledger(ctx):
     ctx.extra["panic_sites_by_kind"] = by_kind
 
 
+# ---------------------------------------------------------------- preconditions of dependency functions
+
+EXT_CRATES = {"syn", "proc_macro2", "quote", "convert_case", "unicode_xid"}
+
+# (file | "*", function suffix | "*", "Owner::fn") -> (class, recogniser / reason)
+#   G   : a condition matching the regex holds at the call (re-recognised on this run; `{recv}` = rendered receiver)
+#   S:* : a structural recogniser over the syntax tree (see _ext_structural)
+#   AU  : audited, one reason per row
+EXT_LEDGER = [
+    ("impl/src/into.rs", "ConversionsAttribute as syn::parse::Parse>::parse", "Punctuated::push_value", G, r"^not\(!{recv}\.empty_or_trailing\(\)\)$|^{recv}\.empty_or_trailing\(\)$"),
+    ("impl/src/into.rs", "ConversionsAttribute as syn::parse::Parse>::parse", "Punctuated::push_punct", "S:push_punct", None),
+    ("*", "*", "Speculative::advance_to", "S:fork-of-receiver", None),
+    ("*", "*", "ParseBuffer::advance_to", "S:fork-of-receiver", None),
+    ("*", "*", "Lifetime::new", "S:literal-lifetime", None),
+    ("*", "*", "Index::from", AU, "`syn::Index::from(usize)` asserts `index < u32::MAX`: every argument is a position in a parsed field list"),
+    ("impl/src/into.rs", "ConversionsAttribute as syn::parse::Parse>::parse", "Punctuated::extend", AU, "`Extend<Pair>` panics on items after a `Pair::End`: the argument is `into_pairs()` of one parsed sequence, whose only `End` is its last pair"),
+]
+
+
+def _ext_key(c):
+    """(crate, owner, fn, trait) of a call into a dependency, from the resolved callee"""
+    cal = c["callee"]
+    res = c.get("resolved") or ""
+
+    def segs(path):
+        t = path
+        for _ in range(4):
+            t = re.sub(r"<[^<>]*>", "", t)
+        return [x for x in t.split("::") if x]
+
+    sg = segs(cal)
+    if sg and sg[0] in EXT_CRATES and len(sg) >= 3:
+        return (sg[0], sg[-2], sg[-1], None)
+    st = (c.get("self_ty") or "").lstrip("&").replace("mut ", "").strip()
+    ss = segs(st)
+    if ss and ss[0] in EXT_CRATES and sg:
+        tr = None
+        m = re.match(r"<.* as (.*)>::[A-Za-z_0-9]+$", res)
+        if m:
+            tr = m.group(1)
+        return (ss[0], ss[-1], sg[-1], tr)
+    return None
+
+
+def _call_node(fn, c, name):
+    """the syntax node of the MIR call `name` at c's position"""
+    hits = []
+    for x, ps in A.walk(fn.block):
+        k = A.kind(x)
+        nm = None
+        if k == "Expr::MethodCall":
+            nm = x["method"]["sym"]
+        elif k == "Expr::Call":
+            nm = (A.path_str(x["func"]) or "").split("::")[-1]
+        if nm != name:
+            continue
+        sp = A.span_of(x)
+        if sp and fn.file.line(sp[0]) <= c["line"] <= fn.file.line(sp[1]):
+            hits.append((x, ps))
+    # innermost
+    hits.sort(key=lambda t: (A.span_of(t[0])[1] - A.span_of(t[0])[0]))
+    return hits[0] if hits else (None, None)
+
+
+def _binding_of(fn, name):
+    for st, _ in A.find(fn.block, "Stmt::Local"):
+        if A.pat_idents(st["pat"]) == [name] and st.get("init"):
+            yield st["init"]["expr"]
+
+
+def _is_fork_of(fn, e, recv, depth=0):
+    """`e` denotes a stream obtained by `recv.fork()`: a local bound to it, or a closure parameter every call passes one for"""
+    e = A.peel(e)
+    if A.kind(e) == "Expr::MethodCall" and e["method"]["sym"] == "fork" and A.render(A.peel(e["receiver"])) == recv:
+        return True
+    nm = A.path_str(e)
+    if nm is None or depth > 2:
+        return False
+    inits = list(_binding_of(fn, nm))
+    if inits:
+        return all(_is_fork_of(fn, i, recv, depth + 1) for i in inits)
+    # closure parameter: `let f = |ahead, ..| { .. }` called as `f(x, ..)`
+    for st, _ in A.find(fn.block, "Stmt::Local"):
+        init = st.get("init")
+        if init and A.kind(init["expr"]) == "Expr::Closure" and len(A.pat_idents(st["pat"])) == 1:
+            cl = init["expr"]
+            params = [A.pat_idents(p_)[0] if A.pat_idents(p_) else None for p_ in cl["inputs"]]
+            if nm in params:
+                idx = params.index(nm)
+                fname = A.pat_idents(st["pat"])[0]
+                calls = [x for x, _ in A.calls(fn.block, lambda p_: p_ == fname)]
+                return bool(calls) and all(len(x["args"]) > idx and _is_fork_of(fn, x["args"][idx], recv, depth + 1) for x in calls)
+    return False
+
+
+def _ext_structural(kind, fn, node, ps):
+    if node is None:
+        return False, "call not found in the syntax tree"
+    if kind == "S:fork-of-receiver":
+        recv = A.render(A.peel(node["receiver"])) if A.kind(node) == "Expr::MethodCall" else None
+        if recv is None or not node["args"]:
+            return False, "not a method call"
+        return _is_fork_of(fn, node["args"][0], recv), f"the argument is not a fork of `{recv}`"
+    if kind == "S:literal-lifetime":
+        a = node["args"][0] if node.get("args") else None
+        v = a["lit"]["token"]["value"] if a is not None and A.kind(a) == "Expr::Lit" and A.kind(a["lit"]) == "Lit::Str" else None
+        return bool(v and re.fullmatch(r"'[A-Za-z_][A-Za-z0-9_]*", v)), "the lifetime name is not a literal `'ident`"
+    if kind == "S:push_punct":
+        # `R.push_punct(..)` needs a last value without punctuation: either under `!R.empty_or_trailing()`, or straight
+        # after `R.push_value(..)` (possibly inside an `if` that follows it)
+        recv = A.render(A.peel(node["receiver"]))
+        conds = conditions_at(fn, fn.file.line(A.span_of(node)[0]))
+        if any(c_ in (f"!{recv}.empty_or_trailing()", f"not({recv}.empty_or_trailing())") for c_ in conds):
+            return True, ""
+        chain = list(ps) + [node]
+        for i in range(len(chain) - 1, 0, -1):
+            par = chain[i - 1]
+            if A.kind(par) == "Block":
+                stmts = par["stmts"]
+                me = chain[i]
+                idx = next((k_ for k_, s_ in enumerate(stmts) if s_ is me), None)
+                if idx is None:
+                    continue
+                if idx > 0:
+                    prev = stmts[idx - 1]
+                    pe = prev.get("0") if A.kind(prev) == "Stmt::Expr" else None
+                    if pe is not None and A.kind(pe) == "Expr::MethodCall" and pe["method"]["sym"] == "push_value" and A.render(A.peel(pe["receiver"])) == recv:
+                        return True, ""
+                    return False, f"the statement before is not `{recv}.push_value(..)`"
+                # first statement of a nested block: keep climbing (through `if`)
+        return False, f"neither `!{recv}.empty_or_trailing()` holds nor does `{recv}.push_value(..)` precede"
+    return False, "unknown recogniser"
+
+
+def rule_extern_preconditions(ctx):
+    """EXT-PRE: every call from derive_more-impl into a dependency function that has a precondition - a `# Panics` section in its documentation, or an explicit panic!/assert! in its body (or in a private function it calls), read from the dependency sources the lock file selects - is made with that precondition established: under a guard re-recognised at the call on this run, by a structural recogniser (a fork of the same stream handed to `advance_to`, `push_punct` straight after `push_value`, a literal lifetime name), or audited with a reason. An unlisted call is reported: for some attribute text the derive would panic instead of reporting an error."""
+    from .. import extsrc
+
+    pre, versions = extsrc.preconditions(ctx.repo)
+    ctx.note("dependency sources read: " + ", ".join(f"{k} {v}" for k, v in sorted(versions.items())) + f"; {len(pre)} functions with a precondition")
+    if not {"syn", "proc-macro2", "quote"} <= set(versions):
+        raise A.AnchorLost("Cargo.lock / cargo registry", "sources of syn / proc-macro2 / quote not found")
+    # positive control: the scanner still sees the preconditions this rule was built around
+    for k in (("syn", "Punctuated", "push_value"), ("syn", "Punctuated", "push_punct"), ("syn", "Lifetime", "new"), ("syn", "Speculative", "advance_to")):
+        if k not in pre:
+            raise A.AnchorLost("dependency sources", f"`{k[1]}::{k[2]}` of {k[0]} is no longer recognised as a function with a precondition")
+    m = ctx.mir
+    n_calls = 0
+    n_hit = 0
+    for b in m.bodies:
+        fnp = m.parent_fn(b["path"])
+        for c in b["calls"]:
+            key = _ext_key(c)
+            if key is None:
+                continue
+            n_calls += 1
+            ents = pre.get(key[:3])
+            if not ents:
+                continue
+            if key[3] is not None:
+                want = extsrc.norm_trait(key[3])
+                ents = [e for e in ents if e["trait"] is None or e["trait"] == want]
+                if not ents:
+                    continue
+            n_hit += 1
+            rel = c["rel"]
+            what = f"{key[1]}::{key[2]}"
+            construct = f"{rel}::{fnp}:{what}"
+            ctx.instance(construct, sample={"call": construct, "precondition": ents[0]["why"], "source": f"{ents[0]['file']}:{ents[0]['line']}"})
+            row = next((r for r in EXT_LEDGER if r[2] == what and r[0] in ("*", rel) and (r[1] == "*" or r[1] in fnp)), None)
+            where = f"{rel}:{c['line']}"
+            if row is None:
+                ctx.report(f"ext-pre:unlisted:{construct}", where, f"`{fnp}` calls `{key[0]}::{what}`, which panics when its precondition does not hold ({ents[0]['why']}, {ents[0]['file']}:{ents[0]['line']}), and nothing establishes that precondition here: some derive input makes the macro panic instead of reporting an error", {})
+                continue
+            cls, arg = row[3], row[4]
+            if cls == AU:
+                continue
+            fn = _fn_for(ctx, rel, c["line"])
+            if fn is None:
+                ctx.report(f"ext-pre:nofn:{construct}", where, "enclosing function not found in the syntax tree", {})
+                continue
+            node, ps = _call_node(fn, c, key[2])
+            if cls == G:
+                recv = re.escape(A.render(A.peel(node["receiver"]))) if node is not None and A.kind(node) == "Expr::MethodCall" else r"[\w.#]+"
+                rx = arg.replace("{recv}", recv)
+                conds = conditions_at(fn, c["line"])
+                if not any(re.search(rx, x) for x in conds):
+                    ctx.report(f"ext-pre:guard-lost:{construct}", where, f"`{what}` in `{fnp}` is no longer made under its guard (conditions holding there: {conds[:6]}): {ents[0]['why']}", {})
+            else:
+                ok, why = _ext_structural(cls, fn, node, ps)
+                if not ok:
+                    ctx.report(f"ext-pre:{cls[2:]}:{construct}", where, f"`{what}` in `{fnp}`: {why} ({ents[0]['why']})", {})
+    ctx.floor("calls into dependencies", n_calls, 4000)
+    ctx.floor("calls with a precondition", n_hit, 12)
+
+
 def rule_closed_sets(ctx):
     """CLOSED-SET: the `unimplemented!()` fall-backs of the fmt trait-name tables cannot be reached: every trait registered for `fmt::display` / `fmt::debug` in impl/src/lib.rs has an arm in `normalize_trait_name`, `trait_name_to_attribute_name` and `trait_name_to_default_placeholder_literal`; Parse impls that are `unreachable!()` belong to types whose `parse_attr_with` is overridden and never calls them."""
     table = CFG.derive_table(ctx)
